@@ -74,6 +74,39 @@ def make_enum(rnd, w):
 NOENUM = dict(vs=[], catchAll=False, dflt=0)
 
 
+def gen_inner(name, inner, rnd):
+    """Rust source of a plain struct (no enums) used as a nested field: definition, generator, field values."""
+    src = [f"#[derive(Debug, Clone, PartialEq, ethercrab_wire::EtherCrabWireReadWrite)]\n#[wire(bits = {sum(f['pre'] + f['w'] + f['post'] for f in inner)})]\npub struct {name} {{"]
+    gens, vals = [], []
+    for i, f in enumerate(inner):
+        w, pre, post, kind = f["w"], f["pre"], f["post"], f["kind"]
+        attr = ([f"pre_skip = {pre}"] if pre else []) + [f"bits = {w}"] + ([f"post_skip = {post}"] if post else [])
+        fn = f"g{i}"
+        if kind == "bits":
+            ty = "u8"
+            gens.append(f"        {fn}: if canon {{ (rng.next_u64() >> 20) as u8 & {(1 << w) - 1} }} else {{ (rng.next_u64() >> 20) as u8 }},")
+            vals.append(f"bv(vec![v.{fn}])")
+        elif kind == "bool":
+            ty = "bool"
+            gens.append(f"        {fn}: rng.below(2) == 1,")
+            vals.append(f"bv(vec![v.{fn} as u8])")
+        elif kind == "int":
+            ty = INT_TY[w][rnd.randrange(2)]
+            gens.append(f"        {fn}: match rng.below(4) {{ 0 => 0, 1 => {ty}::MAX, 2 => {ty}::MIN, _ => rng.next_u64() as {ty} }},")
+            vals.append(f"bv(v.{fn}.to_le_bytes().to_vec())")
+        else:
+            n = w // 8
+            ty = f"[u8; {n}]"
+            gens.append(f"        {fn}: {{ let b = rng.bytes({n}); let mut a = [0u8; {n}]; a.copy_from_slice(&b); a }},")
+            vals.append(f"bv(v.{fn}.to_vec())")
+        src.append(f"    #[wire({', '.join(attr)})]\n    pub {fn}: {ty},")
+    src.append("}")
+    low = name.lower()
+    src.append(f"fn gen_{low}(rng: &mut Rng, canon: bool) -> {name} {{\n    {name} {{\n" + "\n".join(gens) + "\n    }\n}")
+    src.append(f"fn vals_{low}(v: &{name}) -> Value {{\n    Value::Array(vec![{', '.join(vals)}])\n}}")
+    return "\n".join(src)
+
+
 def gen_struct(k, layout, rnd):
     """Rust source for struct S{k} with its enums and its driver."""
     src = []
@@ -101,6 +134,9 @@ def gen_struct(k, layout, rnd):
             ty = f"[u8; {w // 8}]"
         elif kind == "enum":
             ty = f"E{k}_{i}"
+        elif kind == "nested":
+            ty = f"N{k}_{i}"
+            src.append(gen_inner(ty, f["inner"], rnd))
         else:
             raise ValueError(kind)
         if kind == "enum":
@@ -171,6 +207,9 @@ def gen_struct(k, layout, rnd):
         elif kind == "enum":
             gen_fields.append(f"            {name}: {ty}::choose(rng),")
             val_fields.append(f"v.{name}.tag()")
+        elif kind == "nested":
+            gen_fields.append(f"            {name}: gen_{ty.lower()}(rng, canon),")
+            val_fields.append(f"vals_{ty.lower()}(&v.{name})")
     body = f"""
 fn vals_s{k}(v: &S{k}) -> Value {{
     Value::Array(vec![{", ".join(val_fields)}])
@@ -230,7 +269,7 @@ def run(pid, tier):
         consts = dict(Widths={1, 2, 3, 5, 7, 8, 16, 32, 64}, Skips={0, 1, 3, 8}, MaxFields=2 if q else 3,
                       Kinds='{"bits", "bool", "int", "arr", "enum"}')
         cfg = lib.cfg_text(init="WlInit", next_="WlNext", constants=consts,
-                           invariants=["NoOverlap", "RoundTrip", "UndeclaredZero", "Emit"])
+                           invariants=["NoOverlap", "RoundTrip", "UndeclaredZero", "NestedTransparent", "Emit"])
         d = os.path.join(wd, "mc")
         os.makedirs(d)
         r = lib.tlc(d, "WireLayoutMC", cfg, workers=8, timeout=1500, heap="8g")
@@ -269,6 +308,21 @@ def run(pid, tier):
                 break
         if not layouts:
             raise lib.ToolError("no layouts to compile")
+        # nested structs: a plain layout (no enums) of whole bytes becomes the first field of another layout
+        plain = [L for L in layouts if all(f["kind"] != "enum" for f in L)
+                 and sum(f["pre"] + f["w"] + f["post"] for f in L) % 8 == 0 and sum(f["pre"] + f["w"] + f["post"] for f in L) <= 256]
+        for L in layouts:
+            for f in L:
+                f["inner"] = []
+        if plain:
+            extra = []
+            for L in rnd.sample(layouts, min(len(layouts), 40 if q else 400)):
+                inner = [dict(f) for f in rnd.choice(plain)]
+                w = sum(f["pre"] + f["w"] + f["post"] for f in inner)
+                if w + sum(f["pre"] + f["w"] + f["post"] for f in L) > 2040:
+                    continue
+                extra.append([dict(w=w, pre=0, post=0, kind="nested", inner=inner)] + [dict(f) for f in L])
+            layouts += extra
         with open(GEN, "w") as fh:
             fh.write(generate(layouts, rnd))
         env = dict(os.environ, CARGO_NET_OFFLINE="true", RUSTUP_TOOLCHAIN="1.88.0")
@@ -338,7 +392,7 @@ def run(pid, tier):
                    known_findings_matched=verdict.known)
         lib.write_evidence(pid, tier, "model_checking", cov, [
             "Reference semantics = positional bit layout (WireLayout.tla Pack/Unpack) and Rust's rule for implicit discriminants (EnumDecode).",
-            "Generated field kinds: sub-byte u8, bool, u16..u64/i16..i64, [u8; N], enums with u8/u16 repr (explicit/implicit discriminants, alternatives, catch-all, default); nested structs and in-crate types are not yet generated.",
+            "Generated field kinds: sub-byte u8, bool, u16..u64/i16..i64, [u8; N], enums with u8/u16 repr (explicit/implicit discriminants, alternatives, catch-all, default); structs of whole bytes without enums nested as a field of another struct (one level); the crate's own wire types are not generated.",
         ], time.time() - t0, len(verdict.violations))
         return verdict.finish()
     finally:
